@@ -97,17 +97,19 @@ func perms(n int) (out [][]int, capped bool) {
 }
 
 type result struct {
-	Executions  int              `json:"executions"`
-	Scenarios   int              `json:"scenarios"`
-	WithChoice  int              `json:"scenarios_with_choice"`
-	ChoicePts   int              `json:"choice_points"`
-	Capped      int              `json:"capped_choice_points"`
-	SitesHit    map[string]int   `json:"sites_hit_with_2plus_keys"`
-	SitesSeen   map[string]int   `json:"sites_seen"`
-	Violations  []violation      `json:"violations"`
-	Samples     []interface{}    `json:"samples"`
-	DistinctObs int              `json:"distinct_observations"`
-	obs         map[string]bool
+	Executions        int            `json:"executions"`
+	Scenarios         int            `json:"scenarios"`
+	Company           int            `json:"company_scenarios"`
+	CompanyNontrivial int            `json:"company_scenarios_with_diagnostics"`
+	WithChoice        int            `json:"scenarios_with_choice"`
+	ChoicePts         int            `json:"choice_points"`
+	Capped            int            `json:"capped_choice_points"`
+	SitesHit          map[string]int `json:"sites_hit_with_2plus_keys"`
+	SitesSeen         map[string]int `json:"sites_seen"`
+	Violations        []violation    `json:"violations"`
+	Samples           []interface{}  `json:"samples"`
+	DistinctObs       int            `json:"distinct_observations"`
+	obs               map[string]bool
 }
 
 type violation struct {
@@ -227,6 +229,69 @@ func explore(res *result, name string, bound int, replay interface{}, scn func()
 	}
 }
 
+// company explores the second environment choice of a run: which checkers ran before a checker on the shared
+// context. Canonical = every checker in registration order on the long-lived set (after every earlier program);
+// deviation = the reverse order on a fresh context (for every pair (A,B) one of the two runs has B before A, and
+// one of the two has nothing analysed before). The multiset of diagnostics must be the same.
+func company(res *result, name string, set, rgSet *harness.Set, restInfos []*linter.CheckerInfo, pk *harness.Pkg, replay interface{}) {
+	plan, rec = nil, nil
+	obsOf := func(d []harness.Diag, crashes []*harness.Crash) []string {
+		obs := harness.DiagStrings(d)
+		for _, c := range crashes {
+			obs = append(obs, "CRASH "+c.Checker+" "+c.Value)
+		}
+		sort.Strings(obs)
+		return obs
+	}
+	base := obsOf(set.VisitAll(pk))
+	fresh, err := harness.NewSet(restInfos, "")
+	if err != nil {
+		fmt.Fprintln(os.Stderr, err)
+		os.Exit(2)
+	}
+	d, crashes := fresh.VisitAll(pk)
+	if rgSet != nil {
+		d2, c2 := rgSet.VisitAll(pk)
+		d, crashes = append(d, d2...), append(crashes, c2...)
+	}
+	rev := obsOf(d, crashes)
+	res.Executions += 2
+	res.Company++
+	if len(base) > 0 {
+		res.CompanyNontrivial++
+	}
+	if strings.Join(base, "\n") != strings.Join(rev, "\n") {
+		// name the first checker whose diagnostics differ
+		who := "?"
+		cnt := map[string]int{}
+		for _, l := range base {
+			cnt[l]++
+		}
+		for _, l := range rev {
+			cnt[l]--
+		}
+		var diff []string
+		for l, n := range cnt {
+			if n != 0 {
+				diff = append(diff, l)
+			}
+		}
+		sort.Strings(diff)
+		if len(diff) > 0 {
+			if f := strings.SplitN(diff[0], ": ", 3); len(f) == 3 {
+				who = f[1]
+			}
+		}
+		for _, v := range res.Violations {
+			if v.Key == "checker-company|"+who {
+				return
+			}
+		}
+		res.Violations = append(res.Violations, violation{Key: "checker-company|" + who, What: who + ": the diagnostics for a program depend on which checkers (or programs) were run before on the shared context, not only on the source, types and configuration",
+			Observed: name + ": registration order on the long-lived set vs reverse order on a fresh context\n" + diffText(strings.Join(base, "\n"), strings.Join(rev, "\n")), Replay: replay})
+	}
+}
+
 func diffText(a, b string) string {
 	al, bl := strings.Split(a, "\n"), strings.Split(b, "\n")
 	for i := 0; i < len(al) || i < len(bl); i++ {
@@ -324,6 +389,20 @@ func main() {
 		fmt.Fprintln(os.Stderr, err)
 		os.Exit(2)
 	}
+	// checker-company dimension: the dynamic-rules checker on its own long-lived set, every other checker
+	// re-created per program on a fresh context in reverse order
+	var rgSet *harness.Set
+	var restInfos []*linter.CheckerInfo
+	for _, in := range infos {
+		if in.Name == "ruleguard" {
+			if rgSet, err = harness.NewSet([]*linter.CheckerInfo{in}, ""); err != nil {
+				fmt.Fprintln(os.Stderr, err)
+				os.Exit(2)
+			}
+			continue
+		}
+		restInfos = append([]*linter.CheckerInfo{in}, restInfos...)
+	}
 	var progs []progenum.Prog
 	add := func(p progenum.Prog) { progs = append(progs, p) }
 	add(progenum.Prog{ID: "crafted|dupImports", Path: "vpkg", Files: []harness.File{{Name: "f.go", Src: craftedDupImports}}})
@@ -361,6 +440,7 @@ func main() {
 			}
 			return strings.Join(obs, "\n")
 		})
+		company(res, p.ID, set, rgSet, restInfos, pk, map[string]interface{}{"kind": "program", "id": p.ID, "path": p.Path, "files": files})
 		pk.Release()
 	}
 	res.DistinctObs = len(res.obs)
